@@ -309,15 +309,17 @@ def _execute(case: dict, sbx_dir: str, out: "Outcome") -> "Outcome":
         elif entry in ("archive_zip", "archive_tar"):
             member = "dir/" + fname
             bio = io.BytesIO()
+            # what follows the faulted member: a text file, or (history inside one call) the undamaged document under the same routing name
+            after = ("after." + fname.rsplit(".", 1)[-1], _docs[case["doc"]]) if case.get("after_same") else ("after.txt", b"after\n")
             if entry == "archive_zip":
                 with zipfile.ZipFile(bio, "w", zipfile.ZIP_STORED) as z:
                     z.writestr("before.txt", b"before\n")
                     z.writestr(member, data)
-                    z.writestr("after.txt", b"after\n")
+                    z.writestr(after[0], after[1])
                 an = "A.zip"
             else:
                 with tarfile.open(fileobj=bio, mode="w") as t:
-                    for nm, d in (("before.txt", b"before\n"), (member, data), ("after.txt", b"after\n")):
+                    for nm, d in (("before.txt", b"before\n"), (member, data), after):
                         ti = tarfile.TarInfo(nm)
                         ti.size = len(d)
                         t.addfile(ti, io.BytesIO(d))
